@@ -41,6 +41,60 @@ StmtTouched(s, pos, o) ==
   ELSE IF s.kind = "kv" THEN IsPrefixPath(tp, pos) \/ IsPrefixPath(pos, tp)
   ELSE IsPrefixPath(tp, pos)
 
+\* ---- order after sort_values (on the parsed trees, which know how each table was defined) ----
+\* Table::sort_values / InlineTable::sort_values sort "the syntactic table": the pairs spelled under the header
+\* (or between the braces), dotted-key tables included and sorted in turn; tables with a header of their own,
+\* arrays of tables, and every container that is merely a value of the sorted table keep their order.
+HdrDefined(v) == \/ v.k = "t" /\ v.def \in {"header", "implicit", "elem", "root"}
+                 \/ v.k = "a" /\ v.v # <<>> /\ v.v[1].k = "t" /\ v.v[1].def = "elem"
+EKeysOf(es) == [x \in 1..Len(es) |-> es[x].key]
+BodyKeys(es) == EKeysOf(SelectSeq(es, LAMBDA e : ~HdrDefined(e.val)))
+HdrKeys(es) == EKeysOf(SelectSeq(es, LAMBDA e : HdrDefined(e.val)))
+Ascending(ks) == \A x \in 1..(Len(ks) - 1) : KeyLess(ks[x], ks[x + 1])
+\* mode "to": on the way to the sorted table (rest = remaining path); "in": sorted; "out": must keep its order
+RECURSIVE SortOrd(_, _, _, _, _)
+\* loose: the document holds tables created through the API; they have no position of their own and follow
+\* whichever table the sorted map now visits before them, so the order of headers is not pinned
+SortOrd(b, a, rest, mode0, loose) ==
+  LET mode == IF mode0 = "to" /\ rest = <<>> THEN "in" ELSE mode0 IN
+  IF b.k # a.k THEN TRUE
+  ELSE CASE b.k = "t" ->
+              /\ IF mode = "in" THEN Ascending(BodyKeys(a.v)) /\ (loose \/ HdrKeys(a.v) = HdrKeys(b.v))
+                 \* a dotted-key table under the sorted one: the documentation says "not recursive", the code sorts
+                 \* Item::Table children that are dotted and leaves dotted inline tables alone: either is accepted
+                 ELSE IF mode = "dot" THEN Ascending(BodyKeys(a.v)) \/ EKeysOf(a.v) = EKeysOf(b.v)
+                 ELSE EKeysOf(a.v) = EKeysOf(b.v)
+              /\ \A x \in 1..Len(b.v) :
+                   LET y == KeyPos(a.v, b.v[x].key) IN
+                   y # 0 => SortOrd(b.v[x].val, a.v[y].val,
+                                    IF mode = "to" /\ b.v[x].key = Head(rest) THEN Tail(rest) ELSE <<>>,
+                                    IF mode = "to" THEN (IF b.v[x].key = Head(rest) THEN "to" ELSE "out")
+                                    ELSE IF mode \in {"in", "dot"} /\ b.v[x].val.k = "t" /\ b.v[x].val.def = "dotted" THEN "dot" ELSE "out", loose)
+         [] b.k = "a" ->
+              /\ Len(a.v) = Len(b.v)
+              /\ \A x \in 1..Len(b.v) :
+                   LET here == mode = "to" /\ IsIdx(Head(rest)) /\ Head(rest)[2] + 1 = x IN
+                   SortOrd(b.v[x], a.v[x], IF here THEN Tail(rest) ELSE <<>>, IF here THEN "to" ELSE "out", loose)
+         [] OTHER -> TRUE
+
+\* survivors keep their relative order, on the parsed trees.  loose: tables without a position follow whichever
+\* table is printed before them, so only the pairs spelled in the body of each table are pinned
+RECURSIVE SurvivorsOrderedL(_, _, _)
+SurvivorsOrderedL(before, after, loose) ==
+  IF before.k # after.k THEN TRUE
+  ELSE CASE before.k = "t" ->
+              LET pinned(es) == {es[x].key : x \in {y \in 1..Len(es) : ~loose \/ ~HdrDefined(es[y].val)}}
+                  both == {before.v[x].key : x \in 1..Len(before.v)} \cap {after.v[x].key : x \in 1..Len(after.v)}
+                  common == pinned(before.v) \cap pinned(after.v)
+                  kb == SelectSeq(EKeysOf(before.v), LAMBDA k : k \in common)
+                  ka == SelectSeq(EKeysOf(after.v), LAMBDA k : k \in common)
+              IN /\ kb = ka
+                 /\ \A x \in 1..Len(before.v) : before.v[x].key \in both =>
+                      SurvivorsOrderedL(before.v[x].val, after.v[KeyPos(after.v, before.v[x].key)].val, loose)
+         \* elements are paired by index only when no element was added or removed
+         [] before.k = "a" -> Len(before.v) = Len(after.v) => \A x \in 1..Len(before.v) : SurvivorsOrderedL(before.v[x], after.v[x], loose)
+         [] OTHER -> TRUE
+
 \* ---- pieces ----
 RECURSIVE LineEnd(_, _)
 LineEnd(t, i) == IF i > Len(t) \/ t[i] = 10 THEN i ELSE LineEnd(t, i + 1)      \* position of the LF ending the line (or Len+1)
@@ -64,15 +118,22 @@ AttachedAbove(t, lineStart, lo, acc) ==
        ELSE acc
 
 RECURSIVE PiecesAcc(_, _, _, _, _, _, _)
+\* acc = sequence of groups; a group = the pieces of one section (the comments attached above its header, the
+\* header line, the lines of its pairs); the first group is the root section
 PiecesAcc(t, stmts, pos, o, j, lo, acc) ==
   IF j > Len(stmts) THEN acc
   ELSE LET s == stmts[j]
            nextLo == LineEnd(t, s.sp[2]) + 1
-       IN IF StmtTouched(s, pos[j], o) THEN PiecesAcc(t, stmts, pos, o, j + 1, nextLo, acc)
+           acc1 == IF s.kind = "kv" THEN acc ELSE Append(acc, <<>>)
+           n == Len(acc1)
+       IN IF StmtTouched(s, pos[j], o) THEN PiecesAcc(t, stmts, pos, o, j + 1, nextLo, acc1)
           ELSE PiecesAcc(t, stmts, pos, o, j + 1, nextLo,
-                         acc \o AttachedAbove(t, LineStart(t, s.sp[1]), lo, <<>>) \o <<StmtPiece(t, s)>>)
-\* the pieces of text `t` (parsed as p) that operation o must leave verbatim, in source order
-Pieces(t, p, o) == PiecesAcc(t, p.stmts, StmtPos(p.stmts), o, 1, 1, <<>>)
+                         [acc1 EXCEPT ![n] = acc1[n] \o AttachedAbove(t, LineStart(t, s.sp[1]), lo, <<>>) \o <<StmtPiece(t, s)>>])
+\* the pieces of text `t` (parsed as p) that operation o must leave verbatim, in source order, grouped by section
+PieceGroups(t, p, o) == PiecesAcc(t, p.stmts, StmtPos(p.stmts), o, 1, 1, <<<<>>>>)
+RECURSIVE FlattenG(_)
+FlattenG(gs) == IF gs = <<>> THEN <<>> ELSE Head(gs) \o FlattenG(Tail(gs))
+Pieces(t, p, o) == FlattenG(PieceGroups(t, p, o))
 
 \* ---- occurrence in order ----
 MatchAt(t, pat, i) == i + Len(pat) - 1 <= Len(t) /\ SubSeq(t, i, i + Len(pat) - 1) = pat
@@ -84,4 +145,10 @@ FirstMissing(t, pieces, j, from, ordered) ==
   IF j > Len(pieces) THEN 0
   ELSE LET at == FindFrom(t, pieces[j], IF ordered THEN from ELSE 1) IN
        IF at = 0 THEN j ELSE FirstMissing(t, pieces, j + 1, at + Len(pieces[j]), ordered)
+\* sections may move as wholes (tables created through the API have no position): each group in order on its own
+RECURSIVE FirstMissingG(_, _, _)
+FirstMissingG(t, groups, g) ==
+  IF g > Len(groups) THEN <<0, 0>>
+  ELSE LET m == FirstMissing(t, groups[g], 1, 1, TRUE) IN
+       IF m # 0 THEN <<g, m>> ELSE FirstMissingG(t, groups, g + 1)
 =============================================================================
